@@ -4,6 +4,7 @@ C08 — demuxer output depends on the stream's bytes, not on how they are read o
 extra bytes of larger frames are skipped.
 -/
 import Astits.Model.Demux
+import Astits.Proofs.Chunking
 namespace Astits.C08
 
 /-- `io.ReadAtLeast`'s loop over a reader that hands out at most `sched k + 1` bytes on its k-th call:
@@ -49,7 +50,7 @@ theorem readFull_bytes (r : Reader) (n : Nat) (hf : r.faultAt = none) :
   by_cases h1 : r.data.length - r.pos ≥ n
   · simp [h1]
   · by_cases h2 : r.data.length - r.pos = 0
-    · simp only [h1, h2, if_false, if_true]
+    · simp only [h2, if_true]
       have : (r.data.drop r.pos).length = 0 := by simp; omega
       rw [List.length_eq_zero_iff.mp this]
       split <;> simp
@@ -62,5 +63,283 @@ theorem oversize_seek (k : Nat) : ((188 + k : Nat) : Int) - (mpegTsPacketSize : 
   simp [mpegTsPacketSize]; omega
 
 example : readLoop [1, 2, 3, 4, 5] (fun _ => 0) 10 0 1 3 = [2, 3, 4] := by decide
+
+/-! ## C08, second part — chunking independence (K1), oversize frames (K2), auto-detected = explicit size (K3)
+
+Helper lemmas and the low-level definitions live in `Astits/Proofs/Chunking.lean` and `Astits/Proofs/Chunking/*.lean`.
+
+The model's `Reader` has no read schedule: `Reader.readFull` is a closed formula.  What "chunking independence" means
+is therefore stated against a *lower-level* model in which every byte is obtained through `Read` calls:
+`Chunking.VReader` (the harness reader `vreader` with a schedule `cap`: the k-th `Read` hands out at most
+`cap k + 1` bytes, `none` = as many as asked), `Chunking.BReader` (Go's `bufio.Reader` — `Read`, `Peek`, `Discard` —
+over it), `Chunking.ioReadFull` (the loop of `io.ReadFull`), and `Chunking.LDemux` (packet_buffer.go / demuxer.go
+transcribed over these readers).  -/
+
+section K2_packet
+open Chunking
+
+/-- **K2, packet level.** A frame `0x47 :: extra ++ rest` with `rest.length = 187` parses to exactly what the
+188-byte packet `0x47 :: rest` parses to — same packet, same error (including the skipper's verdict), same panic —
+for every `extra` (any `k = extra.length ≥ 0`, any content, sync bytes included) and every skipper. -/
+theorem oversize_frame_parse (skip : Option (Packet → Bool)) (extra rest : Bytes) (hr : rest.length = 187) :
+    (parsePacket skip).val (syncByte :: (extra ++ rest)) = (parsePacket skip).val (syncByte :: rest) :=
+  parsePacket_frame skip extra rest hr
+
+/-- the same in the frame layout of the test driver (`Spec.tsExpand`: the extra bytes directly follow the first
+byte), for every 188-byte slice whether it starts with a sync byte or not -/
+theorem tsExpand_parse (skip : Option (Packet → Bool)) (extra pkt : Bytes) (hl : pkt.length = 188) :
+    (parsePacket skip).val (Spec.tsExpand extra pkt) = (parsePacket skip).val pkt :=
+  parsePacket_tsExpand skip extra pkt hl
+
+/-- a null packet -/
+def nullPkt : Bytes := [0x47, 0x1f, 0xff, 0x10] ++ List.replicate 184 0xff
+
+example : nullPkt.length = 188 := by decide +kernel
+/-- non-vacuity, and the theorem at work: a 192-byte frame whose extra bytes are sync bytes -/
+example : (parsePacket none).val (Spec.tsExpand [0x47, 0x47, 0x47, 0x47] nullPkt) = (parsePacket none).val nullPkt :=
+  tsExpand_parse none _ _ (by decide +kernel)
+/-- … and the packet really is parsed (PID 0x1fff, 184 payload bytes), not rejected on both sides -/
+example : (match (parsePacket none).val (Spec.tsExpand [0x47, 0x47, 0x47, 0x47] nullPkt) with
+    | .ok p => decide (p.header.pid = 0x1fff ∧ p.payload.length = 184)
+    | _ => false) = true := by decide +kernel
+
+end K2_packet
+
+section K1
+open Chunking
+
+/-- **K1, `io.ReadFull`.** Over *any* reader implementation that obeys the `io.Reader` contract with progress
+(`Chunking.Conforms`: each `Read` returns between 1 and `len(p)` of the next bytes — its choice —, or the injected
+fault at the fault offset, or `io.EOF` at the end), `io.ReadFull` returns the bytes, the error and the (abstract)
+reader state of the model's `Reader.readFull`.  Faults are covered. -/
+theorem readFull_any_conforming_reader {σ} (I : ReaderImpl σ) (hc : Conforms I) (s : σ) (n : Nat) (hinv : I.inv s)
+    (hpos : (I.abs s).pos ≤ (I.abs s).data.length) :
+    (ioReadFull I s n).1 = ((I.abs s).readFull n).1 ∧ (ioReadFull I s n).2.1 = ((I.abs s).readFull n).2.1 ∧
+    I.abs (ioReadFull I s n).2.2 = ((I.abs s).readFull n).2.2 := by
+  have := ioReadFull_refines I hc s n hinv hpos
+  exact ⟨this.1, this.2.1, this.2.2.1⟩
+
+/-- the harness reader with any read schedule, and `bufio.Reader` (any buffer size) on top of it, obey the contract -/
+theorem harness_readers_conform : Conforms VImpl ∧ Conforms BImpl ∧ Conforms LImpl :=
+  ⟨VImpl_conforms, BImpl_conforms, LImpl_conforms⟩
+
+/-- **K1, refinement.** `NextPacket` and `NextData` over the concrete readers (any kind: seekable, bufio, small
+bufio, plain; any read schedule; explicit or auto-detected packet size; with or without fault) return what the model
+returns on the abstract state, and lead to a state that stands for the model's next state. -/
+theorem lowlevel_refines_model (ld : LDemux) (hi : LReader.Inv ld.lr) :
+    (ld.nextPacket.1 = ld.abs.nextPacket.1 ∧ ld.nextPacket.2.abs = ld.abs.nextPacket.2 ∧ LReader.Inv ld.nextPacket.2.lr) ∧
+    (ld.nextData.1 = ld.abs.nextData.1 ∧ ld.nextData.2.abs = ld.abs.nextData.2 ∧ LReader.Inv ld.nextData.2.lr) :=
+  ⟨nextPacket_refines ld hi, nextData_refines ld hi⟩
+
+/-- **K1, bisimulation.** `ChunkRel a b`: the two concrete demuxer states stand for the same model state (same data,
+logical position, fault state, reader kind, demuxer fields) — read schedules, call counters and bufio fill levels
+are unconstrained.  It is a bisimulation for `NextPacket`, `NextData` and `Rewind`: same result, related next states. -/
+theorem chunking_bisimulation (a b : LDemux) (h : ChunkRel a b) :
+    (a.nextPacket.1 = b.nextPacket.1 ∧ ChunkRel a.nextPacket.2 b.nextPacket.2) ∧
+    (a.nextData.1 = b.nextData.1 ∧ ChunkRel a.nextData.2 b.nextData.2) ∧
+    (a.rewind.1 = b.rewind.1 ∧ ChunkRel a.rewind.2 b.rewind.2) :=
+  ⟨chunkRel_nextPacket a b h, chunkRel_nextData a b h, chunkRel_rewind a b h⟩
+
+/-- non-vacuity: fresh readers over the same model state with different schedules (and bufio buffer sizes) are
+related -/
+example (d : Demux) (hpos : d.r.pos ≤ d.r.data.length) (hk : d.r.kind = .bufio) :
+    ChunkRel (freshDemux d capOne 4096) (freshDemux d (fun k => some (k % 7)) 200) :=
+  ⟨rfl, (freshReader_spec d.r _ 4096 hpos ⟨by omega, fun _ => by omega, fun h => by rw [hk] at h; cases h⟩).1,
+    (freshReader_spec d.r _ 200 hpos ⟨by omega, fun _ => by omega, fun h => by rw [hk] at h; cases h⟩).1⟩
+
+/-- **K1, call sequences.** For every model state `d` (reader inside its data), any two read schedules and any
+admissible bufio buffer sizes, every sequence of `NextPacket` / `NextData` calls observes the same results, which
+are the model's.  In particular byte-wise reads (`capOne`) = whole-slice reads (`capAll`). -/
+theorem chunking_independent_runs (d : Demux) (hpos : d.r.pos ≤ d.r.data.length)
+    (cap₁ cap₂ : Nat → Option Nat) (size₁ size₂ : Nat) (h₁ : SizeFits d.r.kind size₁) (h₂ : SizeFits d.r.kind size₂)
+    (cs : List Call) :
+    (freshDemux d cap₁ size₁).run cs = (freshDemux d cap₂ size₂).run cs ∧
+    (freshDemux d cap₁ size₁).run cs = runModel cs d :=
+  chunking_independence d hpos cap₁ cap₂ size₁ size₂ h₁ h₂ cs
+
+/-! #### what depends on the reader kind
+
+* explicit packet size: nothing (`explicit_size_kind_independent`);
+* auto-detection, seekable reader vs. bufio.Reader with a buffer of at least 193 bytes: at the start of a stream and
+  without fault one detection agrees on every stream (`detect_seek_eq_bufio`); whole runs agree when detection succeeds
+  at the first attempt (`auto_seek_eq_bufio`).  After a *failed* detection (non-conformant stream) the two differ: a
+  later successful detection rewinds the seekable reader to offset 0 but leaves the bufio.Reader where it is
+  (`seek_bufio_differ_after_failure`);
+* auto-detection on a reader that can be neither rewound nor peeked (plain reader, small bufio buffer): the first two
+  frames are lost (`auto_plain_loses_two_frames`); with fewer than two frames detection fails. -/
+
+theorem explicit_size_kind_independent (d : Demux) (ho : d.optPacketSize ≠ 0) (kk : ReaderKind) (cs : List Call) :
+    runModel cs { d with r := { d.r with kind := kk } } = runModel cs d :=
+  run_kind_independent_explicit d ho kk cs
+
+theorem detect_seek_eq_bufio (r : Reader) (hpos : r.pos = 0) (hf : r.faultActive = none) :
+    autoDetectPacketSize { r with kind := .bufio } =
+      ((autoDetectPacketSize { r with kind := .seek }).1,
+       { (autoDetectPacketSize { r with kind := .seek }).2 with kind := .bufio }) :=
+  autoDetect_seek_eq_bufio r hpos hf
+
+theorem auto_seek_eq_bufio (d : Demux) (hn : d.packetSize = none) (ho : d.optPacketSize = 0)
+    (hk : d.r.kind = .seek) (hpos : d.r.pos = 0) (hf : d.r.faultActive = none) (size : Nat)
+    (hu : Unambiguous d.r.data size) (cs : List Call) :
+    runModel cs { d with r := { d.r with kind := .bufio } } = runModel cs d :=
+  run_auto_seek_eq_bufio d hn ho hk hpos hf size hu cs
+
+theorem auto_plain_loses_two_frames (d : Demux) (hn : d.packetSize = none) (ho : d.optPacketSize = 0)
+    (hk : NotRewindable d.r.kind) (hpos : d.r.pos = 0) (hf : d.r.faultActive = none) (size : Nat)
+    (hu : Unambiguous d.r.data size) (hlen : 2 * size ≤ d.r.data.length) (cs : List Call) :
+    runModel cs d = runModel cs { d with r := { d.r with pos := 2 * size }, packetSize := some size } :=
+  run_auto_plain d hn ho hk hpos hf size hu hlen cs
+
+end K1
+
+section K2_stream
+open Chunking
+
+/-- **K2, stream level.** `fs` is a list of `(extra, packet)` pairs, every packet 188 bytes, every `extra` `k` bytes
+(`WellFramed k fs`); `framedOf fs` is the stream of `188+k`-byte frames in the driver's layout (`Spec.tsExpand`),
+`plainOf fs` its 188-byte form; `T` holds what may follow the last whole frame / packet (a truncated frame `T.t1`, a
+truncated packet `T.t2`; `Tails.none k` for none).  A demuxer `d` with explicit packet size 188 at the start of
+`plainOf fs ++ T.t2` (no fault) and the demuxer with explicit packet size `188+k` at the start of
+`framedOf fs ++ T.t1` (any reader kind) observe the same results for every sequence of `NextPacket` / `NextData`
+calls; call by call the two states are related by `FrameRel` (reader positions `j·188` and `j·(188+k)`, every other
+field equal). -/
+theorem oversize_stream (k : Nat) (fs : Frames) (hw : WellFramed k fs) (T : Tails k) (d : Demux) (kk : ReaderKind)
+    (hdata : d.r.data = plainOf fs ++ T.t2) (hpos : d.r.pos = 0) (hf : d.r.faultActive = none)
+    (hopt : d.optPacketSize = 188) (hps : d.packetSize = none) (cs : List Call) :
+    runModel cs (framedDemux d k fs T kk) = runModel cs d :=
+  run_FrameRel hw cs 0 _ _ (framedDemux_rel d kk hdata hpos hf hopt hps)
+
+/-- the call-by-call form: `FrameRel` is a simulation with scaled positions -/
+theorem oversize_stream_step (k : Nat) (fs : Frames) (hw : WellFramed k fs) (T : Tails k) (j : Nat) (d1 d2 : Demux)
+    (h : FrameRel k fs T j d1 d2) :
+    (d1.nextPacket.1 = d2.nextPacket.1 ∧ ∃ j', j ≤ j' ∧ FrameRel k fs T j' d1.nextPacket.2 d2.nextPacket.2) ∧
+    (d1.nextData.1 = d2.nextData.1 ∧ ∃ j', FrameRel k fs T j' d1.nextData.2 d2.nextData.2) := by
+  obtain ⟨e, j', hj, hr, _⟩ := nextPacket_frames hw h
+  exact ⟨⟨e, j', hj, hr⟩, nextData_frames hw h⟩
+
+/-- K1 and K2 together: the framed stream read through any reader kind with any read schedule = the model on the
+188-byte form -/
+theorem oversize_stream_any_chunking (k : Nat) (fs : Frames) (hw : WellFramed k fs) (T : Tails k) (d : Demux)
+    (kk : ReaderKind) (hdata : d.r.data = plainOf fs ++ T.t2) (hpos : d.r.pos = 0) (hf : d.r.faultActive = none)
+    (hopt : d.optPacketSize = 188) (hps : d.packetSize = none) (cap : Nat → Option Nat) (size : Nat)
+    (hs : SizeFits kk size) (cs : List Call) :
+    (freshDemux (framedDemux d k fs T kk) cap size).run cs = runModel cs d := by
+  have hp : (framedDemux d k fs T kk).r.pos ≤ (framedDemux d k fs T kk).r.data.length := by
+    show d.r.pos ≤ _; rw [hpos]; exact Nat.zero_le _
+  rw [(chunking_independence (framedDemux d k fs T kk) hp cap cap size size hs hs cs).2]
+  exact oversize_stream k fs hw T d kk hdata hpos hf hopt hps cs
+
+end K2_stream
+
+section K3
+open Chunking
+
+/-- **K3, the exact detection condition.** On a rewindable reader (seekable, or bufio with a large enough buffer) at
+the start of the stream and without fault, `autoDetectPacketSize` returns `size` **iff** the stream starts with a
+sync byte, `188 ≤ size ≤ 192`, there is a sync byte at offset `size`, and none at the offsets `188 .. size-1`
+(`Unambiguous`).  The last clause is the recorded finding `autodetect-heuristic`: a 0x47 at offset `188..size-1` of
+the first frame makes the detection return that offset instead. -/
+theorem autoDetect_returns_iff (r : Reader) (hk : Rewindable r.kind) (hpos : r.pos = 0) (hf : r.faultActive = none)
+    (size : Nat) : (autoDetectPacketSize r).1 = .ok size ↔ Unambiguous r.data size :=
+  autoDetect_ok_iff r hk hpos hf size
+
+/-- … and the reader is then back at the start -/
+theorem autoDetect_rewinds (r : Reader) (hk : Rewindable r.kind) (hpos : r.pos = 0) (hf : r.faultActive = none)
+    (size : Nat) (hu : Unambiguous r.data size) : autoDetectPacketSize r = (.ok size, r) :=
+  autoDetect_unambiguous r hk hpos hf size hu
+
+/-- **K3, auto-detected size = explicit size** for every call sequence, on a stream whose detection is unambiguous -/
+theorem auto_eq_explicit (d : Demux) (hn : d.packetSize = none) (ho : d.optPacketSize = 0)
+    (hk : Rewindable d.r.kind) (hpos : d.r.pos = 0) (hf : d.r.faultActive = none) (size : Nat)
+    (hu : Unambiguous d.r.data size) (cs : List Call) :
+    runModel cs d = runModel cs { d with optPacketSize := size } :=
+  run_auto_eq_explicit d hn ho hk hpos hf size hu cs
+
+/-- K2 and K3 together: a stream of `188+k`-byte frames (`k ≤ 4`) whose detection is unambiguous, demuxed with
+auto-detection on a rewindable reader, yields what its 188-byte form yields with explicit packet size 188 -/
+theorem auto_oversize_stream (k : Nat) (fs : Frames) (hw : WellFramed k fs) (T : Tails k) (d : Demux)
+    (kk : ReaderKind) (hkk : Rewindable kk) (hdata : d.r.data = plainOf fs ++ T.t2) (hpos : d.r.pos = 0)
+    (hf : d.r.faultActive = none) (hopt : d.optPacketSize = 188) (hps : d.packetSize = none)
+    (hu : Unambiguous (framedOf fs ++ T.t1) (188 + k)) (cs : List Call) :
+    runModel cs { framedDemux d k fs T kk with optPacketSize := 0 } = runModel cs d := by
+  rw [run_auto_eq_explicit { framedDemux d k fs T kk with optPacketSize := 0 } rfl rfl hkk hpos hf (188 + k) hu cs]
+  exact oversize_stream k fs hw T d kk hdata hpos hf hopt hps cs
+
+/-- both sides auto-detected: the framed stream and its 188-byte form, each on a rewindable reader -/
+theorem auto_oversize_stream_both (k : Nat) (fs : Frames) (hw : WellFramed k fs) (T : Tails k) (d : Demux)
+    (kk : ReaderKind) (hkk : Rewindable kk) (hk : Rewindable d.r.kind) (hdata : d.r.data = plainOf fs ++ T.t2)
+    (hpos : d.r.pos = 0) (hf : d.r.faultActive = none) (hopt : d.optPacketSize = 0) (hps : d.packetSize = none)
+    (hu1 : Unambiguous (framedOf fs ++ T.t1) (188 + k)) (hu2 : Unambiguous (plainOf fs ++ T.t2) 188)
+    (cs : List Call) :
+    runModel cs { framedDemux d k fs T kk with optPacketSize := 0 } = runModel cs d := by
+  rw [run_auto_eq_explicit d hps hopt hk hpos hf 188 (by rw [hdata]; exact hu2) cs]
+  exact auto_oversize_stream k fs hw T { d with optPacketSize := 188 } kk hkk hdata hpos hf rfl hps hu1 cs
+
+end K3
+
+/-! ### non-vacuity: concrete streams satisfying the hypotheses -/
+
+section Examples
+open Chunking
+
+/-- two null packets in 192-byte frames (4-byte timecode prefix after the sync byte) -/
+def fs2 : Frames := [([1, 2, 3, 4], nullPkt), ([5, 6, 7, 8], nullPkt)]
+/-- the plain-side demuxer: explicit packet size 188 at the start of the 188-byte form -/
+def d188 : Demux := { r := { data := plainOf fs2 ++ [0x47, 1, 2] }, optPacketSize := 188 }
+/-- a truncated third frame on the framed side, a truncated third packet on the plain side -/
+def tails2 : Tails 4 := ⟨[0x47, 9, 9, 9, 9, 1], [0x47, 1, 2], by decide, by decide⟩
+
+theorem fs2_wellFramed : WellFramed 4 fs2 := by
+  intro f hf
+  simp only [fs2, List.mem_cons, List.not_mem_nil, or_false] at hf
+  rcases hf with rfl | rfl <;> exact ⟨by decide +kernel, by decide +kernel⟩
+
+theorem fs2_unambiguous : Unambiguous (framedOf fs2 ++ tails2.t1) 192 := by
+  refine ⟨by decide +kernel, by omega, by omega, by decide +kernel, fun j h1 h2 => ?_⟩
+  have : j = 188 ∨ j = 189 ∨ j = 190 ∨ j = 191 := by omega
+  rcases this with rfl | rfl | rfl | rfl <;> decide +kernel
+
+example : (framedOf fs2 ++ tails2.t1).length = 390 ∧ d188.r.data.length = 379 := by decide +kernel
+
+/-- K1: hypotheses of `chunking_independent_runs` (any kind; here bufio with the default and a 256-byte buffer) -/
+example (cs : List Call) :
+    (freshDemux { d188 with r := { d188.r with kind := .bufio } } capOne 4096).run cs =
+      (freshDemux { d188 with r := { d188.r with kind := .bufio } } capAll 256).run cs :=
+  (chunking_independent_runs _ (Nat.zero_le _) capOne capAll 4096 256
+    ⟨by omega, fun _ => by omega, fun h => by cases h⟩ ⟨by omega, fun _ => by omega, fun h => by cases h⟩ cs).1
+
+/-- K2 stream: hypotheses of `oversize_stream` -/
+example (cs : List Call) : runModel cs (framedDemux d188 4 fs2 tails2 .plain) = runModel cs d188 :=
+  oversize_stream 4 fs2 fs2_wellFramed tails2 d188 .plain rfl rfl rfl rfl rfl cs
+
+/-- K3: hypotheses of `auto_oversize_stream` (192-byte frames, seekable reader, auto-detection) -/
+example (cs : List Call) :
+    runModel cs { framedDemux d188 4 fs2 tails2 .seek with optPacketSize := 0 } = runModel cs d188 :=
+  auto_oversize_stream 4 fs2 fs2_wellFramed tails2 d188 .seek (Or.inl rfl) rfl rfl rfl rfl rfl fs2_unambiguous cs
+
+/-- the runs are not trivially equal failures: the first `NextPacket` delivers the null packet -/
+example : (match d188.nextPacket.1 with
+    | .ok p => decide (p.header.pid = 0x1fff ∧ p.payload.length = 184)
+    | _ => false) = true := by decide +kernel
+
+/-- the detection really returns 192 on the framed stream -/
+example : (match (autoDetectPacketSize { data := framedOf fs2 ++ tails2.t1 }).1 with | .ok s => decide (s = 192) | _ => false) = true := by
+  decide +kernel
+
+/-- the ambiguity excluded by `Unambiguous`: with a sync byte among the last four payload bytes of the first packet
+(offsets 188..191 of a 192-byte frame) the detection returns that offset -/
+example : (match (autoDetectPacketSize
+      { data := Spec.tsExpand [1, 2, 3, 4] ([0x47, 0x1f, 0xff, 0x10] ++ List.replicate 181 0xff ++ [0x47, 0xff, 0xff])
+                ++ Spec.tsExpand [5, 6, 7, 8] nullPkt }).1 with
+    | .ok s => decide (s = 189) | _ => false) = true := by decide +kernel
+
+/-- reader kinds after a failed detection (non-conformant stream: 193 junk bytes first): the next, successful
+detection leaves the seekable reader at offset 0 and the bufio.Reader at offset 193 -/
+theorem seek_bufio_differ_after_failure :
+    (autoDetectPacketSize { data := List.replicate 193 0 ++ framedOf fs2, pos := 193, kind := .seek }).2.pos = 0 ∧
+    (autoDetectPacketSize { data := List.replicate 193 0 ++ framedOf fs2, pos := 193, kind := .bufio }).2.pos = 193 := by
+  decide +kernel
+
+end Examples
 
 end Astits.C08
